@@ -39,6 +39,7 @@ class History:
         self.sent_before = 0       # len(w.sent) before the current op
         self.targets = []          # IKE_SAs whose process_message ran during the current op: (sa, data)
         self.handler_runs = []     # (sa, handler name, message id) for every request/response handler executed in this op
+        self.expire_targets, self.expire_owners = [], None
         self._hook()
 
     def _hook(self):
@@ -54,6 +55,13 @@ class History:
             h.targets.append((sa, bytes(data)))
             return pm(sa, data)
         cls.process_message = pm_wrapper
+        pe = cls.process_expire
+        self._saved['process_expire'] = pe
+
+        def pe_wrapper(sa, spi, hard=False):
+            h.expire_targets.append((sa, bytes(spi), bool(hard)))
+            return pe(sa, spi, hard)
+        cls.process_expire = pe_wrapper
         for name in MC.REQ + MC.RESP:
             fn = cls.__dict__[name]
             self._saved[name] = fn
@@ -88,6 +96,7 @@ class History:
         self.sent_before = len(w.sent)
         self.nl_before = {ep.name: len(ep.kernel.log) for ep in (w.A, w.B)}
         self.targets, self.handler_runs = [], []
+        self.expire_targets, self.expire_owners = [], None      # process_expire calls of this op; owners of the expiring SPI before it
         self.ops.append((kind,) + tuple(str(a) for a in args))
         self.kinds[kind] = self.kinds.get(kind, 0) + 1
         if kind == 'acquire':
@@ -101,6 +110,7 @@ class History:
             ep.step(event=ev)
         elif kind == 'expire':
             ep = w.A if args[0] == 'A' else w.B
+            self.expire_owners = [s for s in ep.sas() if any(bytes(args[1]) in (bytes(c.inbound_spi), bytes(c.outbound_spi)) for c in s.child_sas)]
             ep.step(event=ep.expire_event(args[1], args[2]))
         elif kind == 'deliver':
             dg = next((d for d in w.net if d.id == args[0]), None)
@@ -221,6 +231,20 @@ def o_no_escape(h):
             out.append(('exception-in-entry-point:%s' % kind, 'an entry point of %s raised (contained by the loop) after %s: %s'
                         % (ep.name, ' '.join(h.ops[-1]), m)))
     return out
+
+
+def o_expire_to_owner(h):
+    """a kernel expiry notice is handed to the IKE_SA that owns the expiring SPI — whatever that IKE_SA is doing at the moment
+    (it queues the notice itself while a request is outstanding) — and to nobody when no IKE_SA in the table owns it"""
+    if h.ops[-1][0] != 'expire' or h.expire_owners is None:
+        return []
+    got = [sa for sa, _, _ in h.expire_targets]
+    want = h.expire_owners[:1]
+    if [id(x) for x in got] != [id(x) for x in want]:
+        def nm(l):
+            return ['%s(state %d)' % (bytes(x.my_spi).hex(), int(x.state)) for x in l]
+        return [('expire-not-to-owner', 'EXPIRE for SPI %s: owner in the table %s, handed to %s' % (h.ops[-1][2], nm(want), nm(got)))]
+    return []
 
 
 def o_sad_equals_tracked(h):
